@@ -377,6 +377,49 @@ def prep_assign(sc):
     sc._assign = True
 
 
+def prep_doblock(sc):
+    """T3: slice the Expr::DoBlock arm of evaluate_ast verbatim."""
+    prep_values(sc)
+    prep_vecmap(sc)
+    if getattr(sc, "_doblock", False):
+        return
+    from . import slicing
+    src = sc.read("expressions.rs")
+    it = core.find_fn(src, "evaluate_ast", "expressions.rs", unit="U-DOBLOCK")
+    a = core.find_code(src, "Expr::DoBlock {", it.body_open, it.end)
+    if a < 0:
+        raise core.Undecided("U-DOBLOCK", "lost-anchor", "Expr::DoBlock arm of evaluate_ast")
+    pat_end = core.match_brace(src, a + len("Expr::DoBlock "))
+    arrow = core.find_code(src, "=>", pat_end, it.end)
+    b = core.find_code(src, "{", arrow, it.end)
+    pattern = " ".join(src[a:pat_end + 1].split())
+    if pattern != "Expr::DoBlock { statements, return_expr, }" or src[arrow + 2:b].strip() != "":
+        raise core.Undecided("U-DOBLOCK", "lost-anchor", f"unexpected DoBlock arm shape: {pattern!r}")
+    e = core.match_brace(src, b)
+    arm = src[b:e + 1]
+    text = ("#[cfg(kani)]\n#[allow(unused_variables, unreachable_code, clippy::all)]\n"
+            "pub(crate) fn verif_doblock_arm(statements: &Vec<Commented<SpannedExpr>>, return_expr: &Box<Commented<SpannedExpr>>, "
+            "heap: Rc<RefCell<Heap>>, bindings: Rc<Environment>, call_depth: usize, source: Rc<str>) "
+            "-> Result<Value, RuntimeError> " + arm + "\n")
+    sc.append_text("expressions.rs", text, "T3 arm slicing",
+                   {"doblock_arm": {"lines": [core.line_of(src, b), core.line_of(src, e)], "sha256": core.sha256(arm)},
+                    "dropped": "enclosing `match &expr.node` dispatch of evaluate_ast"})
+    sc._doblock = True
+
+
+U_DOBLOCK = KaniUnit(
+    "U-DOBLOCK", "Expr::DoBlock arm of evaluate_ast (sliced verbatim): statements and return expression are evaluated in order "
+    "in ONE fresh scope extending the current one, at the same call depth; a failing statement fails the block at once; what "
+    "the block binds or shadows is neither visible in nor changes the enclosing scope",
+    modules=[("expressions.rs", "verif_doblock.rs")], harnesses=["u_doblock_0", "u_doblock_1", "u_doblock_2"],
+    functions=[("expressions.rs", "evaluate_ast", None), ("environment.rs", "extend", "Environment")],
+    prepare=prep_doblock, timeout=900, complete=False, bound="blocks of 0..=2 statements",
+    assumptions=[STUB_ASSUMPTIONS[0], VECMAP_ASSUMPTION,
+                 "Kani stub (probe) for evaluate_do_block_expr: binds a block-local name and shadows an outer one in the scope "
+                 "it is given, checks that scope, returns a value or a scripted failure"],
+    dropped=["T3: the match dispatch around the DoBlock arm"])
+
+
 def audit_env_insert_sites():
     """Frame audit (C03): `bindings.insert(` / Environment::insert call sites in blots-core are exactly the Assignment arm
     of evaluate_ast and evaluate_do_block_expr (both under contract)."""
